@@ -859,10 +859,91 @@ func (g *frGen) splitCases(n int) {
 		}
 		g.doSplitCrypto(cf, ms, false)
 	}
-	// replay of the model's refutation witness (FramesStreamProofs.maxdatalen_crypto_refuted_large):
-	// beyond the 2-byte length boundary MaxDataLen is 2 bytes too generous. Packets are at most
-	// MaxPacketBufferSize bytes, so no caller reaches it.
+	// regression of the fixed finding frames/maxdatalen-overshoot-large (MaxDataLen was 2 bytes too
+	// generous once the length field needs 4 bytes): frames larger than 16 kB, monitor only
 	g.doSplitCrypto(&wire.CryptoFrame{Offset: 0, Data: make([]byte, 20000)}, 16390, true)
+	for ms := protocol.ByteCount(16380); ms <= 16400; ms++ {
+		g.doSplitCrypto(&wire.CryptoFrame{Offset: protocol.ByteCount(r.Pick(0, 63, 64, 16384)), Data: make([]byte, 16300+r.Intn(400))}, ms, true)
+	}
+	g.maxDataLenCases()
+}
+
+// MaxDataLen alone, for every maxSize up to the varint range (no data involved): both sides of the
+// points where the length field grows (63/64, 16383/16384, 2^30), for STREAM, CRYPTO and DATAGRAM
+func (g *frGen) maxDataLenCases() {
+	r := g.r
+	v := protocol.Version1
+	sizes := []protocol.ByteCount{}
+	for _, c := range []int64{0, 2, 64, 16384, 1 << 30, 1<<62 - 20} {
+		for d := int64(-2); d <= 14; d++ {
+			if c+d >= 0 {
+				sizes = append(sizes, protocol.ByteCount(c+d))
+			}
+		}
+	}
+	for i := 0; i < 12; i++ {
+		sizes = append(sizes, protocol.ByteCount(g.vv()))
+	}
+	check := func(kind int, sid, off uint64, dlp bool, ms, got protocol.ByteCount, lengthOf func(n protocol.ByteCount) protocol.ByteCount) {
+		fmt.Fprintf(g.w, "CASE 1 (MaxDataLenCase %d %d %d %s %d %d)\n", kind, sid, off, u.B(dlp), ms, got)
+		g.dist["maxdatalen"]++
+		detail := fmt.Sprintf("kind=%d sid=%d off=%d dlp=%v maxSize=%d MaxDataLen=%d", kind, sid, off, dlp, ms, got)
+		if got < 0 || got > ms {
+			g.monfail("frames/split", "MaxDataLen out of range", detail)
+			return
+		}
+		if got > 0 && lengthOf(got) > ms {
+			g.monfail("frames/maxdatalen-overshoot-large", fmt.Sprintf("MaxDataLen(%d)=%d gives a frame of %d bytes", ms, got, lengthOf(got)), detail)
+		}
+		if uint64(got)+1 <= fv8 && lengthOf(got+1) <= ms {
+			g.monfail("frames/split", fmt.Sprintf("MaxDataLen(%d)=%d is not maximal", ms, got), detail)
+		}
+	}
+	vl := func(n protocol.ByteCount) protocol.ByteCount {
+		switch {
+		case uint64(n) <= fv1:
+			return 1
+		case uint64(n) <= fv2:
+			return 2
+		case uint64(n) <= fv4:
+			return 4
+		}
+		return 8
+	}
+	for _, ms := range sizes {
+		func() {
+			defer func() {
+				if e := recover(); e != nil {
+					g.monfail("frames/panic", fmt.Sprintf("MaxDataLen panicked: %v", e), fmt.Sprintf("maxSize=%d", ms))
+				}
+			}()
+			sid, off, dlp := g.vv(), g.vv(), r.Chance(3, 4)
+			if r.Chance(1, 4) {
+				off = 0
+			}
+			sf := &wire.StreamFrame{StreamID: protocol.StreamID(sid), Offset: protocol.ByteCount(off), DataLenPresent: dlp}
+			hdr := sf.Length(v) // no data: header (+ 1 byte of length field)
+			if dlp {
+				hdr--
+			}
+			check(0, sid, off, dlp, ms, sf.MaxDataLen(ms, v), func(n protocol.ByteCount) protocol.ByteCount {
+				if dlp {
+					return hdr + vl(n) + n
+				}
+				return hdr + n
+			})
+			cf := &wire.CryptoFrame{Offset: protocol.ByteCount(off)}
+			ch := cf.Length(v) - 1
+			check(1, 0, off, true, ms, cf.MaxDataLen(ms), func(n protocol.ByteCount) protocol.ByteCount { return ch + vl(n) + n })
+			df := &wire.DatagramFrame{DataLenPresent: dlp}
+			check(2, 0, 0, dlp, ms, df.MaxDataLen(ms, v), func(n protocol.ByteCount) protocol.ByteCount {
+				if dlp {
+					return 1 + vl(n) + n
+				}
+				return 1 + n
+			})
+		}()
+	}
 }
 
 // ---------------------------------------------------------------------------------------
